@@ -59,9 +59,10 @@ canary('zero fee model charges tax', ZeroFeeModel, '_calc_tax', 'return 0.0', 'r
 @harness('SimulatedExchange.is_open_at_datetime', props=['C04', 'C14'], layer='L0',
          functions=['SimulatedExchange.__init__', 'SimulatedExchange.is_open_at_datetime'])
 def exchange_open(c):
-    """open <=> Monday-Friday and 14:30 <= t < 21:00 UTC"""
+    """open <=> Monday-Friday and 14:30 <= t < 21:00 UTC   (for timestamps expressed in UTC, as the simulation clock emits them;
+       the code reads the timestamp's own wall clock, so a stamp expressed in another zone is outside this contract)"""
     ex = SimulatedExchange(c.time('start'))
-    t = c.time('t')
+    t = c.time('t', utc=True)
     r = ex.is_open_at_datetime(t)
     wd, tod = wd_tod(c, t)
     c.ob('open-iff-weekday-and-1430-to-2100', IFF(r, AND(LE(wd, 4), GE(tod, 52200), LT(tod, 75600))))
